@@ -47,6 +47,9 @@ func (n *fakeNotifier) Stop(_ chan<- os.Signal) {}
 
 var signalAlphabet = []syscall.Signal{syscall.SIGHUP, syscall.SIGUSR1, syscall.SIGINT, syscall.SIGQUIT, syscall.SIGTERM}
 
+// shutdownSignalIdx is the index of SIGINT in signalAlphabet.
+const shutdownSignalIdx = 2
+
 func isShutdown(s syscall.Signal) bool {
 	return s == syscall.SIGINT || s == syscall.SIGQUIT || s == syscall.SIGTERM
 }
@@ -55,7 +58,9 @@ type sigScenario struct {
 	Kind string `json:"kind"`
 	// Outcomes[i] is what service i's Shutdown does: 0 nil, 1 error, 2 panic,
 	// 3 the context given to Handle becomes done while it shuts down (it used
-	// up the time) and it returns the context's error.
+	// up the time) and it returns the context's error, 4 another shutdown
+	// signal arrives while it shuts down (an impatient second Ctrl+C) and it
+	// returns nil.
 	Outcomes []int `json:"outcomes"`
 	// CtxDone makes the context given to Handle done from the start.
 	CtxDone bool `json:"ctx_done,omitempty"`
@@ -73,6 +78,7 @@ type fakeService struct {
 	outcome int
 	log     *[]string
 	cancel  context.CancelFunc
+	again   func()
 }
 
 func (f *fakeService) Start(_ context.Context) error { return nil }
@@ -88,6 +94,8 @@ func (f *fakeService) Shutdown(_ context.Context) error {
 		f.cancel()
 
 		return fmt.Errorf("service %d: %w", f.idx, context.Canceled)
+	case 4:
+		f.again()
 	}
 
 	return nil
@@ -110,7 +118,11 @@ func (s *sigScenario) Exec(run func(threads ...func()) *verifsched.Exec) (out e3
 
 	var svcs []service.Interface
 	for i, o := range s.Outcomes {
-		svcs = append(svcs, &fakeService{idx: i, outcome: o, log: &log, cancel: cancelCtx})
+		svcs = append(svcs, &fakeService{idx: i, outcome: o, log: &log, cancel: cancelCtx, again: func() {
+			// Like the OS: delivered if there is room, dropped otherwise.
+			verifsched.Select(true, verifsched.SendCase(n.c, os.Signal(signalAlphabet[shutdownSignalIdx])))
+			log = append(log, "second-signal")
+		}})
 	}
 
 	if s.AddInTwoCalls && len(svcs) >= 2 {
@@ -217,7 +229,7 @@ func (s *sigScenario) Exec(run func(threads ...func()) *verifsched.Exec) (out e3
 
 	allNil := true
 	for _, o := range s.Outcomes {
-		allNil = allNil && o == 0
+		allNil = allNil && (o == 0 || o == 4)
 	}
 
 	allCalled := strings.Join(shutdowns, " ") == strings.Join(want, " ")
@@ -590,7 +602,7 @@ func main() {
 		for ns := 0; ns <= maxSvc; ns++ {
 			dims := make([]int, ns)
 			for i := range dims {
-				dims[i] = 4
+				dims[i] = 5
 			}
 
 			outcomes := [][]int{{}}
